@@ -2,7 +2,7 @@
 (* Bounded input spaces (sets of ASTs) enumerated by TLC for the exhaustive model
    and for the behaviour generator.  Families are indexed so that generation can be
    split over initial states (one family per worker).                            *)
-EXTENDS XPathAst
+EXTENDS XPathAst, SequencesExt
 
 NoArg == [k |-> "none"]
 N(txt, v) == [k |-> "num", txt |-> txt, v |-> v]
@@ -53,8 +53,13 @@ ArithD1(u_) == {BinA(o, x, y) : o \in ArithOps, x \in NumLike, y \in NumLike}
 \* depth 2: conversion chains and operators over depth-1 arithmetic
 D2Conv(u_) == {F1A(f, F1A(g, x)) : f \in F1, g \in F1, x \in Leaves(0)}
 D2OverArith(u_) == {F1A(f, x) : f \in F1, x \in ArithD1(0)}
-D2Bin(ops) == {BinA(o, x, y) : o \in ops, x \in ArithD1(0), y \in SmallNums \cup Specials \cup SmallStrs \cup BoolLeaves \cup {Rel1("vabs"), Rel1("vmulti")}}
-              \cup {BinA(o, y, x) : o \in ops, x \in ArithD1(0), y \in SmallNums \cup Specials \cup SmallStrs \cup BoolLeaves \cup {Rel1("vabs"), Rel1("vmulti")}}
+\* chunk c of C of a set (for spreading a big family over workers)
+Chunk(S, c, C) == LET q == SetToSeq(S) IN {q[i] : i \in {j \in 1..Len(q) : j % C = c}}
+NumCore == SmallNums \cup Specials
+ArithCore(u_) == {BinA(o, x, y) : o \in ArithOps, x \in NumCore, y \in NumCore}
+D2Other == SmallNums \cup {XNaN, XPInf, XNZero, L(""), L("12"), Fn0A("true"), Rel1("vabs"), Rel1("vmulti")}
+D2Bin(ops, c, C) == {BinA(o, x, y) : o \in ops, x \in Chunk(ArithCore(0), c, C), y \in D2Other}
+                    \cup {BinA(o, y, x) : o \in ops, x \in Chunk(ArithCore(0), c, C), y \in D2Other}
 
 \* ---- C02 families (location paths) ----
 Names == {"a", "b"}
@@ -120,8 +125,8 @@ Family(i) ==
     [] i = 6 -> D1F3(0)
     [] i = 7 -> D2Conv(0)
     [] i = 8 -> D2OverArith(0)
-    [] i = 9 -> D2Bin(ArithOps)
-    [] i = 10 -> D2Bin(CmpOps \cup BoolOps)
+    [] i = 9 -> D2Bin(ArithOps, 0, 1)
+    [] i = 10 -> D2Bin(CmpOps \cup BoolOps, 0, 1)
     [] i = 11 -> PathsBy({"abs", "rel", "cur"}, StepSeqs1(0) \cup PlainSeqs(0))
     [] i = 12 -> PathsBy({"abs", "rel", "cur"}, StepSeqs2(0))
     [] i = 13 -> PathsBy({"abs", "rel"}, StepSeqs3(0)) \cup DerefPaths(0)
@@ -130,6 +135,11 @@ Family(i) ==
     [] i = 16 -> Chain3(0)
     [] i = 17 -> Chain2Mixed(0)
 NFamilies == 17
+\* families 9 and 10 are big and come in NChunks chunks; the others are chunk 0 only
+FamilyC(i, c, C) ==
+  IF i = 9 THEN D2Bin(ArithOps, c, C) ELSE IF i = 10 THEN D2Bin(CmpOps \cup BoolOps, c, C)
+  ELSE IF c = 0 THEN Family(i) ELSE {}
+
 
 \* ---- TLC-sampled deeper ASTs (family 100): RandomElement draws, seeded by -seed ----
 RLeaves == NumLeaves \cup SmallStrs \cup BoolLeaves \cup TreeLeaves \cup Specials
